@@ -164,6 +164,11 @@ pub struct DropProbe {
     /// record the number of 256-byte blocks that contained a non-zero byte before the drop
     pub blocks_nonzero_before: usize,
     pub blocks: usize,
+    /// bytes of the object that calls through `&self` changed while it sat in the observed storage (interior
+    /// mutability: live state of the object, not padding), and how many of those are non-zero after the drop
+    pub mutated: usize,
+    pub mutated_survivors: usize,
+    pub first_mutated_survivor: Option<usize>,
 }
 
 #[derive(Clone, Copy, Debug, PartialEq, Eq, Hash, serde::Serialize, serde::Deserialize)]
@@ -192,7 +197,8 @@ pub trait Lib: Send + Sync {
     /// `boxed`: the object is owned by a `Box` that is dropped (observed by the allocator hook) instead.
     /// `pre`: what is done with the object before it is dropped (bit 0: derive the public key from a private key;
     /// bit 1: sign / verify once; bit 2: serialise a clone).
-    fn drop_probe(&self, private: bool, prov: Provenance, xi: &[u8; 32], structured: Option<&[u8]>, misalign: bool, boxed: bool, pre: u8) -> Option<DropProbe>;
+    #[allow(clippy::too_many_arguments)]
+    fn drop_probe(&self, private: bool, prov: Provenance, xi: &[u8; 32], structured: Option<&[u8]>, misalign: bool, boxed: bool, pre: u8, exhaust: Option<(&[u8], [u8; 32])>) -> Option<DropProbe>;
 
     // ---- hooks (parameter-set generic kernels) ----
     fn hk_sig_decode(&self, sig: &[u8]) -> LibResult<(Vec<u8>, Vec<P32>, Vec<P32>)>;
@@ -279,7 +285,7 @@ unsafe impl std::alloc::GlobalAlloc for WatchAlloc {
 }
 
 /// The key lives in a `Box`; the box is dropped; the allocator hook reports what the block held when it was freed.
-fn observe_boxed<T>(key: T) -> Option<DropProbe> {
+fn observe_boxed<T>(key: T, ops: impl FnOnce(&T)) -> Option<DropProbe> {
     let size = core::mem::size_of::<T>();
     if size > CAP_LEN {
         return None;
@@ -294,7 +300,10 @@ fn observe_boxed<T>(key: T) -> Option<DropProbe> {
     CAPTURED.with(|f| f.set(false));
     let boxed = Box::new(key);
     let addr = &*boxed as *const T as usize;
-    let before: Vec<u8> = (0..size).map(|i| unsafe { core::ptr::read_volatile((addr + i) as *const u8) }).collect();
+    let image = || -> Vec<u8> { (0..size).map(|i| unsafe { core::ptr::read_volatile((addr + i) as *const u8) }).collect() };
+    let placed = image();
+    ops(&*boxed);
+    let before = image();
     WATCH.with(|w| w.set((addr, size)));
     // a second allocation keeps the block away from the top of the heap (it is not merged into the top chunk and
     // trimmed when freed)
@@ -326,11 +335,22 @@ fn observe_boxed<T>(key: T) -> Option<DropProbe> {
         first_survivor: after.iter().position(|&b| b != 0),
         blocks_nonzero_before: before.chunks(256).filter(|c| c.iter().any(|&b| b != 0)).count(),
         blocks,
+        mutated: mutated(&placed, &before, &before).0,
+        mutated_survivors: mutated(&placed, &before, &after).1,
+        first_mutated_survivor: mutated(&placed, &before, &after).2,
     })
 }
 
+/// (bytes changed between the two images, how many of those are non-zero in `after`, offset of the first such byte)
+fn mutated(placed: &[u8], before: &[u8], after: &[u8]) -> (usize, usize, Option<usize>) {
+    let changed = |i: usize| placed[i] != before[i];
+    let n = (0..placed.len()).filter(|&i| changed(i)).count();
+    let surv: Vec<usize> = (0..placed.len()).filter(|&i| changed(i) && after[i] != 0).collect();
+    (n, surv.len(), surv.first().copied())
+}
+
 /// Move `key` into storage owned by the harness at a chosen alignment, drop it in place, read the storage.
-fn observe<T>(key: T, misalign: bool) -> DropProbe {
+fn observe<T>(key: T, misalign: bool, ops: impl FnOnce(&T)) -> DropProbe {
     let size = core::mem::size_of::<T>();
     let align = core::mem::align_of::<T>().max(8);
     assert!(align <= 64, "harness: unexpected alignment");
@@ -345,6 +365,8 @@ fn observe<T>(key: T, misalign: bool) -> DropProbe {
     let ptr = tptr.cast::<u8>();
     unsafe { tptr.write(key) };
     let read = |p: *mut u8| -> Vec<u8> { (0..size).map(|i| unsafe { core::ptr::read_volatile(p.add(i)) }).collect() };
+    let placed = read(ptr);
+    ops(unsafe { &*tptr });
     let before = read(ptr);
     unsafe { core::ptr::drop_in_place(tptr) };
     let after = read(ptr);
@@ -357,6 +379,9 @@ fn observe<T>(key: T, misalign: bool) -> DropProbe {
         first_survivor: after.iter().position(|&b| b != 0),
         blocks_nonzero_before: before.chunks(256).filter(|c| c.iter().any(|&b| b != 0)).count(),
         blocks,
+        mutated: mutated(&placed, &before, &before).0,
+        mutated_survivors: mutated(&placed, &before, &after).1,
+        first_mutated_survivor: mutated(&placed, &before, &after).2,
     }
 }
 
@@ -452,7 +477,7 @@ macro_rules! lib_impl {
                 $m::dudect_keygen_sign_with_rng(rng, m).map(|s| s.to_vec())
             }
 
-            fn drop_probe(&self, private: bool, prov: Provenance, xi: &[u8; 32], structured: Option<&[u8]>, misalign: bool, boxed: bool, pre: u8) -> Option<DropProbe> {
+            fn drop_probe(&self, private: bool, prov: Provenance, xi: &[u8; 32], structured: Option<&[u8]>, misalign: bool, boxed: bool, pre: u8, exhaust: Option<(&[u8], [u8; 32])>) -> Option<DropProbe> {
                 let (pk, sk) = $m::KG::keygen_from_seed(xi);
                 if private {
                     let key: $m::PrivateKey = match (prov, structured) {
@@ -462,17 +487,24 @@ macro_rules! lib_impl {
                         (Provenance::Cloned, _) => sk.clone(),
                         (Provenance::Derived, _) => return None,
                     };
-                    if pre & 1 != 0 {
-                        let _ = key.get_public_key();
-                    }
-                    if pre & 2 != 0 {
-                        let mut rng = TestRng::replay(&[7u8; 32]);
-                        let _ = key.try_sign_with_rng(&mut rng, b"used before drop", &[]);
-                    }
-                    if pre & 4 != 0 {
-                        let _ = key.clone().into_bytes();
-                    }
-                    if boxed { observe_boxed(key) } else { Some(observe(key, misalign)) }
+                    // the object is used where it is observed, so that bytes changed through `&self` are seen as such
+                    let ops = |key: &$m::PrivateKey| {
+                        if pre & 1 != 0 {
+                            let _ = key.get_public_key();
+                        }
+                        if pre & 2 != 0 {
+                            let mut rng = TestRng::replay(&[7u8; 32]);
+                            let _ = key.try_sign_with_rng(&mut rng, b"used before drop", &[]);
+                        }
+                        if pre & 4 != 0 {
+                            let _ = key.clone().into_bytes();
+                        }
+                        if let Some((m, rnd)) = exhaust {
+                            let mut rng = TestRng::replay(&rnd);
+                            let _ = key.try_sign_with_rng(&mut rng, m, &[1, 2, 3]);
+                        }
+                    };
+                    if boxed { observe_boxed(key, ops) } else { Some(observe(key, misalign, ops)) }
                 } else {
                     let key: $m::PublicKey = match (prov, structured) {
                         (Provenance::Deserialised, Some(b)) => $m::PublicKey::try_from_bytes(arr(b)).ok()?,
@@ -481,13 +513,35 @@ macro_rules! lib_impl {
                         (Provenance::Cloned, _) => pk.clone(),
                         (Provenance::Derived, _) => sk.get_public_key(),
                     };
-                    if pre & 2 != 0 {
-                        let _ = key.verify(b"used before drop", &[0x11u8; $m::SIG_LEN], &[]);
-                    }
-                    if pre & 4 != 0 {
-                        let _ = key.clone().into_bytes();
-                    }
-                    if boxed { observe_boxed(key) } else { Some(observe(key, misalign)) }
+                    let ops = |key: &$m::PublicKey| {
+                        if pre & 2 != 0 {
+                            // verification calls that end at each step of Algorithm 8: a byte string that does not
+                            // decode, a signature that is accepted (when the key is the signer's), and well-formed
+                            // signatures rejected for c_tilde, for a response out of range (+gamma1 / -(gamma1-1)),
+                            // and for a malformed hint
+                            let _ = key.verify(b"used before drop", &[0x11u8; $m::SIG_LEN], &[]);
+                            let mut rng = TestRng::replay(&[7u8; 32]);
+                            if let Ok(sig) = sk.try_sign_with_rng(&mut rng, b"used before drop", &[]) {
+                                let _ = key.verify(b"used before drop", &sig, &[]);
+                                let mut s = sig;
+                                s[0] ^= 1;
+                                let _ = key.verify(b"used before drop", &s, &[]);
+                                for fill in [0x00u8, 0xFF] {
+                                    let mut s = sig;
+                                    s[$LD4 + 40..$LD4 + 48].iter_mut().for_each(|b| *b = fill);
+                                    let _ = key.verify(b"used before drop", &s, &[]);
+                                    let _ = key.hash_verify(b"used before drop", &s, &[], &Ph::SHA512);
+                                }
+                                let mut s = sig;
+                                s[$m::SIG_LEN - 1] = 0xFF;
+                                let _ = key.verify(b"used before drop", &s, &[]);
+                            }
+                        }
+                        if pre & 4 != 0 {
+                            let _ = key.clone().into_bytes();
+                        }
+                    };
+                    if boxed { observe_boxed(key, ops) } else { Some(observe(key, misalign, ops)) }
                 }
             }
 
